@@ -227,7 +227,7 @@ func (u *Unit) freshResults(st *State, resTy types.Type) []Val {
 func (u *Unit) builtin(f *Frame, st *State, bi *ssa.Builtin, cc *ssa.CallCommon, args []Val, resTy types.Type, pos token.Pos) []Val {
 	switch bi.Name() {
 	case "len":
-		return []Val{{T: u.lenOf(args[0]), Ty: types.Typ[types.Int]}}
+		return []Val{{T: u.lenOf(st, args[0]), Ty: types.Typ[types.Int]}}
 	case "cap":
 		a := args[0]
 		switch t := a.Ty.Underlying().(type) {
@@ -271,7 +271,7 @@ func (u *Unit) builtin(f *Frame, st *State, bi *ssa.Builtin, cc *ssa.CallCommon,
 	return u.freshResults(st, resTy)
 }
 
-func (u *Unit) lenOf(a Val) string {
+func (u *Unit) lenOf(st *State, a Val) string {
 	switch t := a.Ty.Underlying().(type) {
 	case *types.Slice:
 		return fmt.Sprintf("(s_len %s)", a.T)
@@ -284,9 +284,13 @@ func (u *Unit) lenOf(a Val) string {
 			return fmt.Sprint(arr.Len())
 		}
 	case *types.Map:
+		// the number of keys is a function of the map's current key set (and non-negative)
 		fn := "maplen_" + typeID(t)
-		u.em.pre(fmt.Sprintf("(declare-fun %s (Int) Int)", fn))
-		return fmt.Sprintf("(%s %s)", fn, a.T)
+		ks := u.em.sortOf(t.Key())
+		u.em.pre(fmt.Sprintf("(declare-fun %s ((Array %s Bool)) Int)", fn, ks))
+		u.em.pre(fmt.Sprintf("(assert (forall ((d (Array %s Bool))) (! (>= (%s d) 0) :pattern ((%s d)))))", ks, fn, fn))
+		d, _ := u.mapGet(st, t)
+		return fmt.Sprintf("(ite (= %s 0) 0 (%s (select %s %s)))", a.T, fn, d, a.T)
 	}
 	u.errf("len of %s", a.Ty)
 	return "0"
